@@ -325,6 +325,7 @@ def run(rep, facts, tier):
     # ------------------------------------------------------------ R16.5
     rule_16_5(rep, fx)
     rule_16_6(rep, fx)
+    rule_16_7(rep, fx)
 
 
 def _reads_local(rv, l):
@@ -434,3 +435,36 @@ def rule_16_6(rep, fx):
                       'data_msg protects the serialized payload as it is; DATA framing then appends 1..3 pad bytes after the CryptoFooter and decode_serialized_payload, which takes the '
                       'last bytes as the footer, fails the MAC check: a protected payload whose length is not a multiple of 4 never reaches the reader', c.where(bb))
     rep.floor('R16.6', n, 1, 'calls of encode_serialized_payload in data_msg')
+
+
+def rule_16_7(rep, fx):
+    """Who a decoded submessage is approved for: only the local endpoints matched with a remote endpoint whose key id matched, whose key verified/decrypted the submessage
+    and which passed the receiver-specific MAC filter."""
+    rep.rule('R16.7', 'approved endpoints: the endpoint list returned in Success(DecodedSubmessage::Writer/Reader(_, list)) by decode_submessage is derived from the filtered chain '
+                      '(key-id lookup of the decode material, then the receiver-specific MAC filter in the GMAC and GCM arms), never from the raw list of all endpoints of the sending participant')
+    bs = [x for x in fx.bodies if x.key.endswith('crypto_transform::decode_submessage')]
+    if len(bs) != 1:
+        raise CheckBroken('decode_submessage not found')
+    b = bs[0]
+    rep.analysed(b)
+    og = Origins(b, summaries=False)
+    clos = {c.key: c for c in fx.closures_of(b)}
+    n = 0
+    for bb, si, st in b.statements():
+        if not (st['s'] == 'assign' and st['rv']['r'] == 'agg' and st['rv'].get('variant') in ('Writer', 'Reader') and 'DecodedSubmessage' in str(st['rv'].get('adt'))):
+            continue
+        n += 1
+        L = og.of_operand(st['rv']['ops'][1], bb, si)
+        used = set()
+        term_has(L, lambda x: x[0] == 'agg' and 'closure' in str(x[1]) and used.add(norm_path(str(x[1]))))
+        calls = set()
+        for k in used:
+            if k in clos:
+                calls |= set(callee_res(t).rsplit('::', 1)[-1] for _bb, t in clos[k].calls())
+        ok = 'get_session_decode_crypto_materials' in calls or 'session_decode_crypto_materials' in calls
+        ok = ok and 'validate_receiver_specific_mac' in calls
+        rep.check(ok, 'R16.7', 'decode_submessage/%s-approved-list' % st['rv']['variant'], 'list derived through the key-id lookup and the receiver-specific MAC filter',
+                  'decode_submessage approves a decoded %s submessage for endpoints that did not go through the key-id lookup and the receiver-specific MAC filter (stages seen: %s): a '
+                  'submessage protected under one endpoint\'s key is delivered to the local endpoints matched with the sender\'s other endpoints' % (
+                      st['rv']['variant'].lower(), sorted(c for c in calls if 'session' in c or 'mac' in c) or 'none'), b.where(bb, si))
+    rep.floor('R16.7', n, 2, 'Success(DecodedSubmessage::..) constructions in decode_submessage')
